@@ -3,11 +3,11 @@
    andb/orb/negb).  Numbers stay inductive. *)
 From Coq Require Extraction.
 From Coq Require Import ExtrOcamlBasic.
-From RP Require Import Base Stream Target Socks Http Frames Frag MiluSyntax MiluParser MiluDoc MiluEval Dispatch MiluSound MiluWf MiluSoundLet Reload Lb Callbacks RtLeaf MiluRoundtrip MiluRoundtripWs Idle Config Registry Auth Exec.
+From RP Require Import Base Stream Target Socks Http Frames Frag MiluSyntax MiluParser MiluDoc MiluEval Dispatch MiluSound MiluWf MiluSoundLet Reload Lb Callbacks RtLeaf MiluRoundtrip MiluRoundtripWs Idle Config Registry Auth QuicDgram Exec.
 Extraction Language OCaml.
 Set Extraction KeepSingleton.
 Extraction "model.ml" frag_run make_fragments
   x_socks_req_read x_socks_req_write5 write_req_v4 x_socks_resp_read write_response
   x_http_req_read x_http_resp_read write_http_request write_http_response
   from_buffer encode_frame x_sfr_all decode_udp encode_udp
-  x_milu_parse x_type_of x_real_type_of x_real_value_of x_dispatch x_rrun x_member_at x_wf_lfb x_cidr_contains x_cidr_net_ok ty_eqb x_print_target x_parse_target x_write_connect x_write_connect_udp x_connect_reply x_read_connect utf8_valid x_client_bytes x_rt_print x_rt_denote x_rt_num x_idle_check x_tcp_period x_udp_period x_table_ok x_resolve x_state_log x_lifecycle_ok x_select_method x_auth_check x_wf_slb x_rt_print_ws.
+  x_milu_parse x_type_of x_real_type_of x_real_value_of x_dispatch x_rrun x_member_at x_wf_lfb x_cidr_contains x_cidr_net_ok ty_eqb x_print_target x_parse_target x_write_connect x_write_connect_udp x_connect_reply x_read_connect utf8_valid x_client_bytes x_rt_print x_rt_denote x_rt_num x_idle_check x_tcp_period x_udp_period x_table_ok x_resolve x_state_log x_lifecycle_ok x_select_method x_auth_check x_wf_slb x_rt_print_ws x_dgram_hop x_ids_of x_drun.
